@@ -14,6 +14,7 @@ import sys
 import time
 
 REPO = "/repo"
+VERIF = os.path.dirname(os.path.dirname(os.path.abspath(__file__)))
 PKG = "checkpoint_schedules"
 FILES = ["schedule.py", "basic_schedules.py", "multistage.py", "mixed.py", "twolevel_binomial.py",
          "hrevolve.py", "hrevolve_sequences/hrevolve.py", "hrevolve_sequences/revolve.py",
@@ -142,8 +143,8 @@ def main():
         rec = {"file": f, "kind": kind, "line": line, "col": col, "what": what, "source": line_src, "caught_by": []}
         t0 = time.time()
         for c in checks:
-            p = sh("cd /verif && VERIF_REPO_DIR=%s VERIF_EVIDENCE_DIR=%s/evidence ./check %s --tier quick 2>&1 | tail -3"
-                   % (wt, out, c))
+            p = sh("cd %s && VERIF_REPO_DIR=%s VERIF_EVIDENCE_DIR=%s/evidence ./check %s --tier quick 2>&1 | tail -3"
+                   % (VERIF, wt, out, c))
             if "VIOLATION" in p.stdout or "status=violation" in p.stdout:
                 rec["caught_by"].append(c)
             elif "status=inconclusive" in p.stdout or "HARNESS" in p.stdout:
